@@ -114,3 +114,62 @@ Definition pad10 (rate : nat) (m : bytes) : bytes :=
 (* absorb a list of full blocks, permuting after each *)
 Definition absorb_blocks (f : bytes -> bytes) (st : bytes) (bl : list bytes) : bytes :=
   fold_left (fun s b => f (xor_at s 0 b)) bl st.
+
+(* ---- squeezing ---------------------------------------------------------- *)
+
+(* Reading the state is a duplex step whose input is ignored and whose state
+   byte is kept: ASCON-XOFA's squeeze loop (permute after every completed
+   block) is duplex_c bf_sq over n dummy bytes. *)
+Definition bf_sq : bytefn := fun x _ => (x, x).
+
+Section LazySqueeze.
+(* ASCON-XOF's squeeze loop permutes lazily: before the first byte of every
+   block (count = 0 in squeeze mode means "a permutation is pending"). *)
+Variable f : bytes -> bytes.
+Variable rate : nat.
+
+Fixpoint lazy_loop (fuel : nat) (st : bytes) (n : nat) : bytes * nat * bytes :=
+  match fuel with
+  | O => (st, n, [])
+  | S k =>
+    if rate <=? n then
+      let s1 := f st in
+      let '(s2, rest, o2) := lazy_loop k s1 (n - rate) in
+      (s2, rest, get_at s1 0 rate ++ o2)
+    else (st, n, [])
+  end.
+
+Definition lazy_aligned_c (st : bytes) (n : nat) : (bytes * nat) * bytes :=
+  let '(s1, rest, o1) := lazy_loop n st n in
+  if rest =? 0 then ((s1, 0), o1)
+  else let s2 := f s1 in ((s2, rest), o1 ++ get_at s2 0 rest).
+
+Definition lazy_squeeze_c (sp : bytes * nat) (n : nat) : (bytes * nat) * bytes :=
+  let '(st, count) := sp in
+  if count =? 0 then lazy_aligned_c st n
+  else
+    let temp := rate - count in
+    if n <? temp then ((st, count + n), get_at st count n)
+    else
+      let '(r, o2) := lazy_aligned_c st (n - temp) in
+      (r, get_at st count temp ++ o2).
+
+(* byte-serial lazy machine *)
+Fixpoint lazy_serial (sp : bytes * nat) (n : nat) : (bytes * nat) * bytes :=
+  match n with
+  | O => (sp, [])
+  | S k =>
+    let st := if snd sp =? 0 then f (fst sp) else fst sp in
+    let pos' := if S (snd sp) =? rate then 0 else S (snd sp) in
+    let '(r, o2) := lazy_serial (st, pos') k in
+    (r, get_at st (snd sp) 1 ++ o2)
+  end.
+
+End LazySqueeze.
+
+(* Block-level specification of squeezing n bytes from a state s that has
+   just been permuted: output S_r, permute, output S_r, ... with the last
+   block truncated - i.e. the duplex over n dummy bytes with the reading
+   byte function. *)
+Definition spec_squeeze (f : bytes -> bytes) (rate : nat) (s : bytes) (n : nat) : bytes :=
+  snd (spec_duplex bf_sq f rate s (zeros n)).
